@@ -2,6 +2,7 @@
 the registered checks, undo the change, and record what happened in seeded/<id>/meta.json.
 
 usage: run_seeded.py [--tests] [--all-checks] [ids...]
+       run_seeded.py --scratch [-jN] [ids...]   (regression over scratch copies, /repo untouched, N seeds at a time)
 """
 from __future__ import annotations
 
@@ -30,7 +31,42 @@ def run_demo(path):
     return r.returncode, (r.stdout + r.stderr)[-400:]
 
 
+def scratch_one(sid):
+    """Regression mode: the patch is applied to a scratch copy of /repo's HEAD (outside /repo and /verif, removed afterwards)
+    and the seed's own check runs against that copy - many seeds at a time, /repo untouched."""
+    import shutil
+    import tempfile
+
+    d = os.path.join(SEEDED, sid)
+    prop = sid.split("-")[0]
+    scratch = tempfile.mkdtemp(prefix="verif-seed-", dir="/var/tmp")
+    try:
+        sh(f"git -C /repo archive HEAD | tar -x -C {scratch}")
+        a = sh(["patch", "-s", "-p1", "-d", scratch, "-i", os.path.join(d, "patch.diff")])
+        if a.returncode != 0:
+            return sid, "PATCH DOES NOT APPLY"
+        env = dict(os.environ, VERIF_REPO_SRC=os.path.join(scratch, "src"), VERIF_SELFTEST="1")
+        r = sh([os.path.join(HERE, "vt"), "check", prop, "--tier", "quick"], cwd=HERE, env=env, timeout=7200)
+        return sid, f"{prop}:exit{r.returncode}"
+    finally:
+        shutil.rmtree(scratch, ignore_errors=True)
+
+
 def main(argv):
+    if "--scratch" in argv:
+        import concurrent.futures as cf
+
+        jobs = max([int(a[2:]) for a in argv if a.startswith("-j")] + [4])
+        ids = [a for a in argv if not a.startswith("-")]
+        seeds = sorted(d for d in os.listdir(SEEDED) if os.path.isdir(os.path.join(SEEDED, d)) and (not ids or d in ids))
+        missed = 0
+        with cf.ThreadPoolExecutor(max_workers=jobs) as ex:
+            for sid, res in ex.map(scratch_one, seeds):
+                print((sid, res), flush=True)
+                if not res.endswith("exit1"):
+                    missed += 1
+        print(f"{len(seeds)} seeds, {missed} not reported by their own check")
+        return 1 if missed else 0
     ids = [a for a in argv if not a.startswith("--")]
     run_tests = "--tests" in argv
     all_checks = "--all-checks" in argv
